@@ -1457,8 +1457,8 @@ func run(c *mon.Ctx) {
 	c.Floor("handle.mid_edit", 40)
 	// decoding and encoding are functions of their arguments whoever else is doing the same at that moment
 	c.Floor("concurrent.calls", 5000)
-	c.Stream("concurrent-codecs", c.N(3, 150), func(i int, r *gen.Rand) {
-		c.Concurrent("scte35.NewSCTE35 + UpdateData", 8, 250, r, func(q *gen.Rand) string {
+	c.Stream("concurrent-codecs", c.N(8, 200), func(i int, r *gen.Rand) {
+		c.Concurrent("scte35.NewSCTE35 + UpdateData", 8, 2000, r, func(q *gen.Rand) string {
 			s := ref.GenSig(q, true)
 			sec := s.Section()
 			x, err := scte35.NewSCTE35(s.Payload())
